@@ -173,7 +173,11 @@ def run_case(case, ctx):
                 for p in (os.path.join(d, "orig-%d.pyc" % k), outp):
                     r = subprocess.run([common.interp(v), p], env=common.base_env(host=False), stdout=subprocess.PIPE, stderr=subprocess.PIPE,
                                        cwd=d, timeout=60)
-                    outs.append((r.returncode, r.stdout))
+                    import re as _re
+
+                    # object addresses in a printed repr differ from run to run: masked (a harness-side source of
+                    # nondeterminism, not part of the program's behaviour)
+                    outs.append((r.returncode, _re.sub(br"0x[0-9a-fA-F]{6,}", b"0xADDR", r.stdout)))
                 ctx.count("executed_pairs")
                 if outs[0] != outs[1]:
                     ctx.violation("%s:%s:behaviour" % (vtag, kind), "original exits %d with %r, rewritten exits %d with %r %s"
